@@ -53,9 +53,11 @@ def tokens(code, back):
 
 
 def replay_one(rec, pattern, variant):
-    from pedal.core.report import MAIN_REPORT as R
+    from pedal.core.report import MAIN_REPORT, Report
     from pedal.core.commands import clear_report, contextualize_report
     from pedal.source import separate_into_sections, next_section, stop_sections, verify
+    # every other file is walked on a Report object of its own instead of the global one (every call takes report=)
+    R = Report() if (len(rec["file"]) + len(rec["hist"])) % 2 else MAIN_REPORT
     from pedal.tifa import tifa_analysis
     from pedal.sandbox import commands as SB
     from pedal.resolvers import simple
